@@ -40,6 +40,7 @@ pub struct W {
     pub ops_hi: usize,
     pub query_pct: usize,
     pub region_pct: usize,
+    pub prewrap_pct: usize,
 }
 
 fn base() -> W {
@@ -76,6 +77,7 @@ fn base() -> W {
         ops_hi: 30,
         query_pct: 6,
         region_pct: 10,
+        prewrap_pct: 6,
     }
 }
 
@@ -160,6 +162,7 @@ pub fn weights(profile: &str) -> W {
             w.text = 50;
             w.nolimit_pct = 100;
             w.edit = 12;
+            w.prewrap_pct = 35;
         }
         "C11" => {
             // every component dump() has to re-create: tabs, margins, modes, charsets, both saved
@@ -567,6 +570,42 @@ fn rep_count(rng: &mut Rng, cols: usize, s: String) -> String {
     }
 }
 
+/// a CSI command with surplus parameters: one or two meaningful leading parameters, then enough
+/// separators to run past the parameter array (32 entries), then trailing digits that must not leak
+/// into the leading parameters; any dispatchable final byte
+fn gen_overflow(rng: &mut Rng, cols: usize, rows: usize) -> String {
+    let f = *rng.pick(&[
+        'A', 'B', 'C', 'D', 'E', 'F', 'G', 'H', 'I', 'J', 'K', 'L', 'M', 'P', 'S', 'T', 'X', 'Z', '@', '`', 'a', 'd',
+        'e', 'f', 'g', 'h', 'l', 'm', 'r', 'S', 'T', 'L', 'M', 'r', 'W',
+    ]);
+    let edge = rows.max(cols).min(9);
+    let mut s = String::from(csi(rng));
+    if f == 'h' || f == 'l' {
+        if rng.chance(60) {
+            s.push('?');
+        }
+        s.push_str(*rng.pick(&["6", "7", "4", "25", "47", "1049", "20"]));
+    } else {
+        s.push_str(&rng.range(1, edge.max(1)).to_string());
+        if rng.chance(50) {
+            s.push(';');
+            s.push_str(&rng.range(1, edge.max(1)).to_string());
+        }
+    }
+    let k = *rng.pick(&[13usize, 14, 15, 16, 17, 28, 29, 30, 31, 32, 33, 34, 35, 47, 63, 64, 65]);
+    for i in 0..k {
+        s.push(';');
+        if rng.chance(30) {
+            s.push_str(&(i % 10).to_string());
+        }
+    }
+    if rng.chance(80) {
+        s.push_str(&rng.range(0, 9).to_string());
+    }
+    s.push(f);
+    s
+}
+
 fn gen_huge(rng: &mut Rng, cols: usize) -> String {
     match rng.below(6) {
         0 => {
@@ -687,11 +726,30 @@ fn gen_feed(rng: &mut Rng, w: &W, cols: usize, rows: usize) -> String {
     }
 }
 
+/// occasional surplus-parameter command in place of a grammar fragment (every profile)
+fn gen_feed_x(rng: &mut Rng, w: &W, cols: usize, rows: usize) -> String {
+    if rng.chance(2) {
+        gen_overflow(rng, cols, rows)
+    } else {
+        gen_feed(rng, w, cols, rows)
+    }
+}
+
 /// a fragment from a small alphabet of state-changing commands with small parameters: the mode /
 /// margin / saved-context / screen-switch state machine is explored much more densely than by the
 /// general grammar (ordered combinations such as DECOM, DECSC, DECSTBM, DECRC become likely)
 fn gen_soup_fragment(rng: &mut Rng, cols: usize, rows: usize) -> String {
-    match rng.below(16) {
+    match rng.below(18) {
+        16 => format!("\u{1b}[{}{}", *rng.pick(&["", "1", "2", "3"]), *rng.pick(&['L', 'M', 'S', 'T'])),
+        17 => {
+            if rng.chance(15) {
+                gen_overflow(rng, cols, rows)
+            } else if rng.chance(40) {
+                gen_fill(rng, cols, rows)
+            } else {
+                rng.pick(&["\u{1b}D", "\u{1b}E", "\u{1b}M", "\n", "\u{1b}[?1047h", "\u{1b}[?1047l"]).to_string()
+            }
+        }
         0 => format!("\u{1b}[?6{}", *rng.pick(&['h', 'l'])),
         1 => format!("\u{1b}[?7{}", *rng.pick(&['h', 'l'])),
         2 => rng.pick(&["\u{1b}7", "\u{1b}[s", "\u{1b}[?1048h"]).to_string(),
@@ -722,11 +780,31 @@ fn gen_soup_fragment(rng: &mut Rng, cols: usize, rows: usize) -> String {
     }
 }
 
+/// every row of the screen gets its own text (so that a row landing in the wrong place is visible)
+fn gen_fill(rng: &mut Rng, cols: usize, rows: usize) -> String {
+    let base = rng.below(20);
+    let mut s = String::new();
+    for r in 0..rows {
+        s.push_str(&format!("\u{1b}[{};1H", r + 1));
+        let n = rng.range(1, cols);
+        for k in 0..n {
+            s.push(char::from_u32(0x61 + ((base + r * 3 + k) % 26) as u32).unwrap());
+        }
+    }
+    if rng.chance(70) {
+        s.push_str(&format!("\u{1b}[{};{}H", rng.range(1, rows), rng.range(1, cols)));
+    }
+    s
+}
+
 /// one instance, ops drawn from the small state-machine alphabet (with resizes and queries)
 fn case_soup(rng: &mut Rng, w: &W, out: &mut impl Write) {
     let (mut cols, mut rows) = (rng.range(1, 8), rng.range(1, 6));
     let limit = gen_limit(rng, w);
     writeln!(out, "N 0 {} {} {}", cols, rows, lim_tok(limit)).unwrap();
+    if rng.chance(70) {
+        writeln!(out, "S 0 {}", hex_encode(&gen_fill(rng, cols, rows))).unwrap();
+    }
     if rng.chance(25) && rows >= 2 {
         // park the cursor outside the scroll region with origin mode on (needs DECOM, a save, new
         // margins and a restore in that order - too rare to arise by chance)
@@ -734,7 +812,10 @@ fn case_soup(rng: &mut Rng, w: &W, out: &mut impl Write) {
         writeln!(out, "S 0 {}", hex_encode(&s)).unwrap();
         // ... and move around vertically while parked there
         for _ in 0..rng.range(2, 6) {
-            let m = match rng.below(7) {
+            let m = match rng.below(10) {
+                7 => format!("\u{1b}[{}L", *rng.pick(&["", "1", "2"])),
+                8 => format!("\u{1b}[{}M", *rng.pick(&["", "1", "2"])),
+                9 => format!("\u{1b}[{}", *rng.pick(&['S', 'T'])),
                 0 | 1 => "\u{1b}M".to_string(),
                 2 => "\n".to_string(),
                 3 => format!("\u{1b}[{}A", rng.range(1, 2)),
@@ -746,7 +827,52 @@ fn case_soup(rng: &mut Rng, w: &W, out: &mut impl Write) {
         }
     }
     let nops = rng.range(6, 40);
-    for _ in 0..nops {
+    let episode_at = if rng.chance(35) { rng.below(nops) } else { usize::MAX };
+    for i in 0..nops {
+        if i == episode_at {
+            // an alternate-screen episode: switch, a few of {resize, margins, save, move, modes, text},
+            // switch back - the state carried across the two switches (margins, saved contexts,
+            // the other buffer's size) is what single random switches rarely exercise
+            let on = *rng.pick(&[47usize, 1047, 1049]);
+            let off = *rng.pick(&[47usize, 1047, 1049]);
+            writeln!(out, "S 0 {}", hex_encode(&format!("\u{1b}[?{}h", on))).unwrap();
+            for _ in 0..rng.range(1, 4) {
+                match rng.below(6) {
+                    0 | 1 => {
+                        match rng.below(3) {
+                            0 => cols = rng.range(1, 8),
+                            1 => rows = rng.range(1, 6),
+                            _ => {
+                                cols = rng.range(1, 8);
+                                rows = rng.range(1, 6);
+                            }
+                        }
+                        writeln!(out, "R 0 {} {}", cols, rows).unwrap();
+                    }
+                    2 => {
+                        let s = if rows >= 2 {
+                            let t = rng.range(1, rows - 1);
+                            format!("\u{1b}[{};{}r", t, rng.range(t + 1, rows))
+                        } else {
+                            "\u{1b}[r".to_string()
+                        };
+                        writeln!(out, "S 0 {}", hex_encode(&s)).unwrap();
+                    }
+                    3 => {
+                        let s = format!("\u{1b}[{};{}H{}", rng.range(1, rows), rng.range(1, cols), *rng.pick(&["\u{1b}7", "\u{1b}[s", ""]));
+                        writeln!(out, "S 0 {}", hex_encode(&s)).unwrap();
+                    }
+                    _ => {
+                        let s = gen_soup_fragment(rng, cols, rows);
+                        writeln!(out, "S 0 {}", hex_encode(&s)).unwrap();
+                    }
+                }
+            }
+            writeln!(out, "S 0 {}", hex_encode(&format!("\u{1b}[?{}l", off))).unwrap();
+            if rng.chance(50) {
+                writeln!(out, "S 0 {}", hex_encode(*rng.pick(&["\u{1b}8", "\u{1b}[u", "\n", "\u{1b}[S", "x"]))).unwrap();
+            }
+        }
         if rng.chance(w.resize_pct / 2) {
             cols = rng.range(1, 8);
             rows = rng.range(1, 6);
@@ -816,6 +942,17 @@ fn case_generic(rng: &mut Rng, w: &W, out: &mut impl Write) {
     let nops = rng.range(w.ops_lo, w.ops_hi);
     for _ in 0..nops {
         if rng.chance(w.resize_pct) {
+            if rng.chance(w.prewrap_pct) {
+                // put the cursor somewhere definite first: often into the pending-wrap position
+                // (one past the last column) of a row in the middle of a wrapped paragraph
+                let r = rng.range(1, rows);
+                let s = match rng.below(4) {
+                    0 | 1 => format!("\u{1b}[{};{}H{}", r, cols, gen_char(rng)),
+                    2 => format!("\u{1b}[{};{}H", r, rng.range(1, cols)),
+                    _ => format!("\u{1b}[{};1H", r),
+                };
+                writeln!(out, "S 0 {}", hex_encode(&s)).unwrap();
+            }
             let (c, r) = gen_size(rng, w);
             // chains that change only one dimension are as interesting as arbitrary ones
             match rng.below(3) {
@@ -828,7 +965,7 @@ fn case_generic(rng: &mut Rng, w: &W, out: &mut impl Write) {
             }
             writeln!(out, "R 0 {} {}", cols, rows).unwrap();
         } else {
-            let s = gen_feed(rng, w, cols, rows);
+            let s = gen_feed_x(rng, w, cols, rows);
             let kind = if rng.chance(w.perchar_pct) {
                 "F"
             } else if rng.chance(w.drop_pct) {
@@ -866,7 +1003,7 @@ fn history(rng: &mut Rng, w: &W, k: &[usize], cols: &mut usize, rows: &mut usize
                 writeln!(out, "R {} {} {}", i, cols, rows).unwrap();
             }
         } else {
-            let s = gen_feed(rng, w, *cols, *rows);
+            let s = gen_feed_x(rng, w, *cols, *rows);
             for i in k {
                 writeln!(out, "S {} {}", i, hex_encode(&s)).unwrap();
             }
@@ -1252,6 +1389,7 @@ pub fn generate(profile: &str, seed: u64, ncases: usize, tier: &str, out: &mut i
                     case_generic(&mut rng, &w, out)
                 }
             }
+            "C04" | "C06" | "C07" | "C08" | "C18" if i % 4 == 3 => case_soup(&mut rng, &w, out),
             _ => case_generic(&mut rng, &w, out),
         }
         writeln!(out, "END").unwrap();
